@@ -19,6 +19,7 @@ import (
 	"package-operator.run/internal/apis/manifests"
 	"package-operator.run/internal/packages/internal/packagedeploy"
 	"package-operator.run/internal/packages/zzverif/checks"
+	"package-operator.run/internal/packages/zzverif/checks/c06"
 	"package-operator.run/internal/packages/zzverif/kmodel"
 	"package-operator.run/internal/packages/zzverif/osw"
 	"package-operator.run/internal/packages/zzverif/pkgw"
@@ -537,12 +538,18 @@ func gcSystem(edits int, chain bool, stale int) *world.System {
 			}
 			return evs
 		},
-		Check: func(before *world.World, _ world.Event, pass *world.Pass, after *world.World) []world.Finding {
+		Check: func(before *world.World, ev world.Event, pass *world.Pass, after *world.World) []world.Finding {
 			if pass == nil {
 				return nil
 			}
 			var out []world.Finding
 			v := osw.View{Before: before.S, Pass: pass}
+			// a sliced ObjectSet reports status exactly like an inline one: the C06 status monitor,
+			// evaluated over the phases with their slices inlined
+			for _, f := range c06.Check(before, ev, pass, after) {
+				f.Identity = "sliced-objectset-status: " + f.Identity
+				out = append(out, f)
+			}
 			// transparency of the encoding for status: an ObjectSet that claims Available=True has
 			// every object of every slice it references on the cluster
 			for i, r := range pass.Reqs {
